@@ -83,11 +83,22 @@ def o161(ctx):
         raise Unsupported("no filtered image with an extracted gain is stored into the stack", fn)
     axes = filt.axes
     ctx.count(1, {"extracted gain": tm.show(filt.gain)[:400]})
+    # every image slot is written: the store of the filtered image is not skipped under a condition on the dose (an image with dose 0 is multiplied by 1,
+    # which is still a value that has to be in the result)
+    dose_guards = [g_ for g_ in ev.guards if tm.has_sym(g_, "doses") and not (g_.op == "call" and g_.args[0] == "in_loop")]
+    ctx.count(1, {"conditions on the dose under which the image is stored": [tm.show(g_)[:60] for g_ in dose_guards]})
+    if dose_guards:
+        ctx.finding(Q, ev.node, f"the filtered image is stored only under a condition on the dose ({tm.show(dose_guards[0])[:60]}): the images it skips are not in "
+                    "the result (an output buffer that is not the input stack holds zeros / stale memory there), so zero dose is not the identity", ev.node, m)
     # the filter acts on the image's own frequency grid: the image is transformed as it is (no padded / resampled canvas)
     ctx.count(1)
     foreign = [n for n in tm.walk(filt.src) if n.op == "call" and str(n.args[0]) in ("numpy.pad", "numpy.resize", "scipy.ndimage.zoom", "numpy.tile")]
     opaque_n = [A for A in axes if any(n.op == "call" for n in tm.walk(A.n))]
-    if foreign or opaque_n or getattr(filt, "cropped", False):
+    if opaque_n and not (foreign or getattr(filt, "cropped", False)):
+        # the size of the frequency grid is an expression the interpretation did not resolve (a shape unpacked inside a helper): whether it is the image's
+        # own size is not decided -- not a finding
+        raise Unsupported(f"dose_filter: the size of the frequency grid is not resolved ({tm.show(opaque_n[0].n)[:60]})", ev.node)
+    if foreign or getattr(filt, "cropped", False):
         ctx.finding(Q, ev.node, "the image is filtered on a canvas of another size than the image (padded / cropped around the transform): the "
                     "attenuation is then applied at the frequencies of that canvas, not at the image's own k/(N*pixel_size) grid, and the "
                     "result is not a multiplier on the image's Fourier components", ev.node, m, image=tm.show(filt.src)[:120],
